@@ -50,7 +50,9 @@ NStrExtra == {Lf("\"-1\""), Lf("\".5\""), Lf("\"0b1\""), Lf("\"1_0\""), Lf("\"\\
 \* literals whose VALUE depends on how escapes are read: `\z` followed by ASCII blanks (skipped), by a vertical tab (skipped: C's
 \* isspace), by U+00A0 / U+0085 (NOT skipped: their UTF-8 bytes are not blanks for Lua), and hex / unicode / decimal escapes
 StrEsc  == {Lf("\"a\\z   b\""), Lf(StrOfBytes(<<34, 97, 92, 122, 32, 160, 98, 34>>)), Lf(StrOfBytes(<<34, 92, 122, 133, 34>>)),
-            Lf(StrOfBytes(<<34, 97, 92, 122, 11, 98, 34>>)), Lf("\"\\u{e9}\\x41\\065\"")}
+            Lf(StrOfBytes(<<34, 97, 92, 122, 11, 98, 34>>)), Lf("\"\\u{e9}\\x41\\065\""),
+            \* long brackets: exactly ONE line break after the opening bracket is skipped
+            Lf("[[\nab]]"), Lf("[[\n\nab]]"), Lf("[==[\n\n\n]==]"), Lf("[[ab\n]]"), Lf("[=[\n]]\n]=]")}
 StrAll  == {Lf("\"\""), Lf("\"a\""), Lf("\"abc\""), Lf("\"\\255\"")} \cup StrEsc
 StrCore == {Lf("\"\""), Lf("\"a\""), Lf("\"\\255\"")}
 MiscAll == {Lf("nil"), Lf("true"), Lf("false"), Lf("{}"), Lf("{1}"), Lf("function() end")}
